@@ -51,7 +51,7 @@ def cfg(nw=2, keys=("k1",), mpk=1, mk=1, maxtime=3, rounds=1, breaks=1, close=("
                       gen="TRUE" if gen else "FALSE", db=db, tail=tail)
 
 
-FIELDS = {"t", "seq", "e", "k", "n", "close", "workers", "maxPerKey", "maxKeys", "w", "c", "key", "now", "fresh",
+FIELDS = {"t", "seq", "e", "k", "n", "close", "workers", "maxPerKey", "maxKeys", "life", "stale", "w", "c", "key", "now", "fresh",
           "byHolder", "hung", "g"}
 
 
@@ -68,9 +68,9 @@ def ops_of(sched):
     return ops
 
 
-def scen(workers, keys, ops, close=True, mpk=1, mk=1, maxtime=3):
-    return {"close": close, "workers": workers, "keys": keys, "maxPerKey": mpk, "maxKeys": mk, "life": LIFE,
-            "stale": STALE, "period": PERIOD, "maxTime": maxtime, "ops": ops}
+def scen(workers, keys, ops, close=True, mpk=1, mk=1, maxtime=3, life=LIFE, stale=STALE):
+    return {"close": close, "workers": workers, "keys": keys, "maxPerKey": mpk, "maxKeys": mk, "life": life,
+            "stale": stale, "period": PERIOD, "maxTime": maxtime, "ops": ops}
 
 
 def scenarios(thorough):
@@ -83,6 +83,8 @@ def scenarios(thorough):
                                           "w3": [g("k1"), r]}, mpk=2, maxtime=4),
     ]
     out.append(scen(["w1", "w2", "w3"], ["k1"], {"w1": [g("k1"), r], "w2": [g("k1"), r], "w3": [g("k1"), r, g("k1"), r]}))
+    out.append(scen(["w1", "w2", "w3"], ["k1"], {"w1": [g("k1"), r, g("k1"), r], "w2": [g("k1"), r], "w3": [g("k1"), r]},
+                    mpk=2, maxtime=5, life=2, stale=6))
     # MaxConnsPerKey 0 (conn_max_idle_count 0, "keep no idle connections"): every Return finds the bucket full
     out.append(scen(["w1", "w2"], ["k1"], {"w1": [g("k1"), r, g("k1"), r], "w2": [g("k1"), r]}, mpk=0))
     out.append(scen(["w1", "w2"], ["k1", "k2"], {"w1": [g("k1"), r, g("k2"), r], "w2": [g("k2"), r, g("k1"), d]},
@@ -124,6 +126,33 @@ def full_bucket_windows(thorough):
             for tl in tails:
                 for pre in ([], ["sweeper", "sweeper"]):
                     out.append({"cfg": sc, "pol": "list", "sched": pre + prefix + m + tl, "src": "window"})
+    return out
+
+
+def old_bucket_fresh_conns(thorough):
+    """Directed schedules "expired bucket holding several fresh connections": a bucket's lastUse stamp is written
+    only when the bucket is created, so connections returned shortly before the bucket turns MaxConnLifetime old
+    are still fresh when the next Get drops the bucket.  Lifetime 2 units: bucket created at t0, two (three)
+    connections used at t=2 and returned, Get at t=3 (bucket expired, connections not), then shutdown."""
+    out = []
+    g, r = ["get", "k1"], ["ret"]
+    for nconn in ((2, 3) if thorough else (2,)):
+        ws = ["w%d" % i for i in range(1, nconn + 2)]
+        ops = {w: [g, r] for w in ws}
+        ops["w1"] = [g, r, g, r]
+        sched = ["w1:get:k1", "w1", "w1:ret", "w1", "clock", "clock"]
+        for w in ws[:nconn]:                      # w1 takes the pooled one, the others get fresh ones
+            sched += [w + ":get:k1", w, w]
+        orders = [ws[:nconn], list(reversed(ws[:nconn]))]
+        for order in orders:
+            tail = []
+            for w in order:
+                tail += [w + ":ret", w]
+            last = ws[nconn]
+            for clk in (["clock"], ["clock", "clock"]):
+                sc = scen(ws, ["k1"], ops, close=True, mpk=nconn, maxtime=5, life=2, stale=6)
+                out.append({"cfg": sc, "pol": "list", "src": "oldbucket",
+                            "sched": sched + tail + clk + [last + ":get:k1", last, last, last, last]})
     return out
 
 
@@ -190,6 +219,7 @@ def run(ctx, replay):
             c = dict(b["cfg"], ops=ops_of(b["sched"]))
             behs.append({"cfg": c, "pol": "list", "sched": b["sched"], "src": "tlc"})
         behs += full_bucket_windows(thorough)
+        behs += old_bucket_fresh_conns(thorough)
         for sc in scenarios(thorough):
             horizon = 16 * len(sc["workers"]) + 12
             behs.append({"cfg": sc, "pol": "db", "delays": [], "src": "db"})
